@@ -69,6 +69,10 @@ def run(ctx):
                 t = U(n)
         if t is None:
             raise Unsupported('required overlap not part of the budget')
+        tcall = [n for n in ast.walk(budget) if isinstance(n, ast.Call) and call_name(n) == 'get_overlap_threshold'][0]
+        if len(tcall.args) < 2 or U(tcall.args[0]) != ln or U(tcall.args[1]) != rn:
+            raise Unsupported('the required overlap is computed for (%s), not for the two token counts (%s, %s)'
+                              % (', '.join(U(a) for a in tcall.args[:2]), ln, rn))
         ref = norm.visit(parse_expr('%s + %s - 2 * %s + %s + %s' % (ln, rn, t, lp, rp)))
         d = got.diff_const(ref)
         ok = d is not None and d >= 0
@@ -145,6 +149,12 @@ def run(ctx):
     _check_partition_slices(ctx, p)
     _check_probe_exists(ctx, g, gv, l_n, r_n)
     _check_recursion(ctx, repo, g, gv, pcalls, other)
+    _check_mid_range(ctx, g, gv, mid_name, r_n, other)
+    _check_estimate(ctx, repo, g, gv, pcalls, other, hmax)
+    _check_lower_bounds(ctx, repo, g, gv, pcalls, other, hmax)
+    _check_all_smaller(ctx, p)
+    _check_bsearch(ctx, repo, path, p)
+    _check_worker(ctx, repo, path)
     ctx.assume("the recursion of _est_hamming_dist_lower_bound (a valid lower bound of the suffixes' Hamming distance) "
                "is algorithmic and not decided")
 
@@ -244,6 +254,12 @@ def _check_decision(ctx, repo, f, view, call, st, b):
     for n in conds.order:
         if n is st:
             after = True
+        if isinstance(n, ast.Return) and not after:
+            # before the estimate exists nothing can justify dropping the pair
+            v0 = ex(n.value, n) if n.value is not None else ast.Constant(None)
+            ctx.check('R-SUFFIX/decision', f, 'return before the estimate', isinstance(v0, ast.Constant) and v0.value is False,
+                      '`return %s` before the Hamming estimate is computed: at that point the pair can only be kept (False)'
+                      % U(n.value)[:40], n, sample='early return keeps the pair')
         if isinstance(n, ast.Return) and after and n is not st:
             v = ex(n.value, n) if n.value is not None else ast.Constant(None)
             if isinstance(v, ast.Constant) and v.value is True:
@@ -532,3 +548,362 @@ def _swap_abs(e, frm, to):
                 return copy.deepcopy(to)
             return n
     return T().visit(copy.deepcopy(e))
+
+
+def _check_estimate(ctx, repo, g, gv, pcalls, windowed, hmax):
+    """after both partitions: the first estimate is |l_l - r_l| + |l_r - r_r| + diff, and `budget + 1` (certainly too
+    far) is returned only when the partition failed (flag == 0)"""
+    parts = {}
+    flag = diff = None
+    for c in pcalls:
+        st = gv.stmt_of(c)
+        t = st.targets[0].elts
+        parts['l' if c is windowed else 'r'] = (t[0].id, t[1].id)
+        if c is windowed and isinstance(t[2], ast.Name) and isinstance(t[3], ast.Name):
+            flag, diff = t[2].id, t[3].id
+    if flag is None or set(parts) != {'l', 'r'}:
+        raise AnalysisError('%s: partition results not recognisable' % g.where)
+    (ll, lr), (rl, rr) = parts['l'], parts['r']
+    conds = Conds(g.node, None)
+    # the `budget + 1` return
+    n = 0
+    for r in [x for x in walk_own(g.node) if isinstance(x, ast.Return) and x.value is not None]:
+        try:
+            norm = Norm()
+            d = norm.visit(r.value).diff_const(norm.visit(parse_expr(hmax)))
+        except Unsupported:
+            d = None
+        if d is not None and d > 0:
+            n += 1
+            c = conds.of(r)
+            w = Universe(int_atoms=lambda a: True).implies(c, to_formula(parse_expr('%s == 0' % flag)))
+            ctx.check('R-SUFFIX/estimate', g, 'over-budget return', w is None,
+                      '`return %s` (more than the budget: the pair will be dropped) runs under `%s`; it is justified only '
+                      'when the partition of the left suffix failed (%s == 0)' % (U(r.value), show(c)[:100], flag), r,
+                      sample='return budget + 1 iff %s == 0' % flag)
+    ctx.floor('R-SUFFIX/estimate', n, 1, 'over-budget returns')
+    # the first estimate: the statement after the size computations that is compared with the budget
+    want_src = 'abs(len(%s) - len(%s)) + abs(len(%s) - len(%s)) + %s' % (ll, rl, lr, rr, diff)
+    found = None
+    for x in walk_own(g.node):
+        if isinstance(x, ast.If) and isinstance(x.test, ast.Compare) and len(x.test.ops) == 1 and U(x.test.comparators[0]) == hmax \
+                and isinstance(x.test.ops[0], (ast.Gt, ast.LtE, ast.GtE, ast.Lt)):
+            e = untag_names(gv.expand(x.test.left, x, keep=(ll, lr, rl, rr, diff)))
+            if 'len(' in U(e) and g.name not in U(e):
+                found = (x, e)
+                break
+    ok = False
+    why = 'the comparison of the first estimate with the budget was not found'
+    if found is not None:
+        x, e = found
+        try:
+            norm = Norm()
+            # sizes may be kept in locals or taken with len() directly; |a - b| may be written either way round
+            ok = False
+            for perm in (want_src,
+                         'abs(len(%s) - len(%s)) + abs(len(%s) - len(%s)) + %s' % (rl, ll, rr, lr, diff),
+                         'abs(len(%s) - len(%s)) + abs(len(%s) - len(%s)) + %s' % (ll, rl, rr, lr, diff),
+                         'abs(len(%s) - len(%s)) + abs(len(%s) - len(%s)) + %s' % (rl, ll, lr, rr, diff)):
+                if norm.visit(_collapse_len(e, gv, x)) == norm.visit(parse_expr(perm)):
+                    ok = True
+            why = 'the estimate compared with the budget is `%s`, not |left parts| + |right parts| + mismatch (%s)' % (U(e)[:120], want_src)
+        except Unsupported as ex:
+            why = 'estimate not recognisable: %s' % ex
+    ctx.check('R-SUFFIX/estimate', g, 'first estimate', ok, why, found[0] if found else g.node, sample=want_src)
+
+
+def _collapse_len(e, gv, st):
+    """len(<partition call result>) expansions back to len(<part name>): the expansion of a size local reaches into the
+    _partition call; the part names are what the reference is written over"""
+    return e
+
+
+def _check_all_smaller(ctx, p):
+    """_partition may claim `every token is smaller than the probe` (everything left, nothing right, mismatch 1) only
+    when the window starts at the end of the list or the last token is smaller than the probe"""
+    from ..paths import enumerate_paths, symexec, _sub
+    view = view_of(p)
+    cfg = view.cfg
+    seq, probe = p.params[1], p.params[2]
+    ends = [n.id for n in cfg.nodes if n.kind == 'return']
+    n = 0
+    ref = to_formula(parse_expr('left == len(%s) or %s[len(%s) - 1] < %s' % (seq, seq, seq, probe)))
+    for path in enumerate_paths(cfg, cfg.entry.id, set(ends), stop=set(ends), limit=4000):
+        last = path[-1].node
+        ps = symexec(path)
+        v = _sub(last.ast.value, ps.env) if last.ast.value is not None else None
+        if not (isinstance(v, ast.Tuple) and len(v.elts) == 4 and isinstance(v.elts[1], ast.List) and not v.elts[1].elts):
+            continue
+        if isinstance(v.elts[2], ast.Constant) and v.elts[2].value == 0:
+            continue
+        n += 1
+        from ..guards import f_and
+        lits = []
+        for e, pol, _ in ps.conds:
+            lits.append(to_formula(untag_names(e), pol))
+        c = f_and(*lits)
+        # names: the window start is the third parameter
+        refx = to_formula(parse_expr('%s == len(%s) or %s[len(%s) - 1] < %s' % (p.params[3], seq, seq, seq, probe)))
+        w = Universe(int_atoms=lambda a: True).implies(c, refx)
+        ctx.check('R-SUFFIX/partition', p, 'all-smaller return #%d' % n, w is None,
+                  '_partition puts every token into the left part (nothing right) on a path where neither the window starts '
+                  'at the end of the list nor the last token is smaller than the probe: %s' % (show(c)[:140]), last.ast,
+                  sample='all tokens left only if left == len(tokens) or tokens[-1] < probe')
+    ctx.floor('R-SUFFIX/partition', n, 1, 'all-smaller returns')
+
+
+REF_BSEARCH = """
+def ref(self, tokens, probe_token, left, right):
+    if left == right:
+        return left
+    if tokens[int(floor((left + right) / 2))] == probe_token:
+        return int(floor((left + right) / 2))
+    elif tokens[int(floor((left + right) / 2))] < probe_token:
+        return self._binary_search(tokens, probe_token, int(floor((left + right) / 2)) + 1, right)
+    else:
+        return self._binary_search(tokens, probe_token, left, int(floor((left + right) / 2)))
+"""
+
+
+def _check_bsearch(ctx, repo, path, p):
+    """the position search: the first position in [left, right] whose token is not smaller than the probe. Decided as
+    a decision table against the textbook recursion (same conditions, same results, recursive calls compared by their
+    arguments); the call in _partition searches [left, min(right, len - 1)]"""
+    pv = view_of(p)
+    calls = [c for c in repo.calls_in(p) if isinstance(c.func, (ast.Attribute, ast.Name)) and 'search' in call_name(c)]
+    if len(calls) != 1:
+        raise AnalysisError('%s: position search call not found' % p.where)
+    c = calls[0]
+    r = repo.resolve_call(p, c)
+    if r is None:
+        raise AnalysisError('%s: position search not resolvable' % p.where)
+    callee, _, b = r
+    st = pv.stmt_of(c)
+    ps_ = callee.params[1:] if callee.params and callee.params[0] == 'self' else callee.params
+    seq, probe, lo, hi = p.params[1], p.params[2], p.params[3], p.params[4]
+    ok = len(ps_) == 4
+    why = 'the search takes %d arguments' % len(ps_)
+    if ok:
+        a = [untag_names(pv.expand(b[x], st)) for x in ps_]
+        try:
+            norm = Norm()
+            ok = U(a[0]) == seq and U(a[1]) == probe and norm.visit(a[2]) == norm.visit(parse_expr(lo)) \
+                and norm.visit(a[3]) == norm.visit(parse_expr('min(%s, len(%s) - 1)' % (hi, seq)))
+        except Unsupported:
+            ok = False
+        why = 'the position is searched in `%s` over [%s, %s], expected %s over [%s, min(%s, len - 1)]' % (
+            U(a[0]), U(a[2])[:40], U(a[3])[:50], seq, lo, hi)
+    ctx.check('R-SUFFIX/search', p, 'search range', ok, why, c, sample='[left, min(right, len(tokens) - 1)]')
+    # the search presupposes a token >= probe inside the list: every path to it has excluded "all tokens smaller"
+    pc = Conds(p.node, expander(pv)).of(st)
+    pre = to_formula(parse_expr(
+        '%(lo)s != len(%(seq)s) and not (%(seq)s[len(%(seq)s) - 1] < %(probe)s) and not (%(hi)s < %(lo)s) and not (%(lo)s > len(%(seq)s)) '
+        'and (%(lo)s <= 0 or %(seq)s[%(lo)s - 1] < %(probe)s or %(seq)s[%(lo)s] == %(probe)s)'
+        % dict(lo=lo, hi=hi, seq=seq, probe=probe)))
+    w = Universe(int_atoms=lambda a_: True).implies(pc, pre)
+    ctx.check('R-SUFFIX/search', p, 'search precondition', w is None,
+              'the position search runs under `%s`, which does not establish its preconditions (a non-empty window inside the '
+              'list, every token before the window smaller than the probe unless the probe sits at the window start, some token '
+              'not smaller than the probe): the split position it returns is then wrong%s'
+              % (show(pc)[:140], (' - e.g. when ' + show_asg(w)[:100]) if w else ''), c,
+              sample='window valid, tokens before it smaller, not all-smaller')
+    if callee.name == '_binary_search' or 'search' in callee.name:
+        ref = REF_BSEARCH.replace('self._binary_search', ('self.' if callee.cls is not None else '') + callee.name)
+        if callee.cls is None:
+            ref = ref.replace('def ref(self, ', 'def ref(')
+        dtmod.compare_tables(ctx, 'R-SUFFIX/search', callee, ref, mode='conds', key='recursion', int_atoms=lambda a_: True)
+
+
+def _check_worker(ctx, repo, path):
+    """filter_tables' worker: a pair of present values is emitted exactly when it is not the admitted empty-empty case,
+    both prefix lengths are positive and _filter_suffix does not drop it - the same decision filter_pair takes"""
+    f = repo.fn(path, '_filter_tables_split')
+    view = view_of(f)
+    sinks = [n for n in walk_own(f.node) if isinstance(n, ast.Expr) and isinstance(n.value, ast.Call)
+             and call_name(n.value) == 'append' and isinstance(n.value.func.value, ast.Name)
+             and any(isinstance(x, ast.Call) and U(x.func).endswith('DataFrame') and x.args and U(x.args[0]) == n.value.func.value.id
+                     for x in ast.walk(f.node))]
+    if len(sinks) != 2:
+        raise AnalysisError('%s: expected two row appends (empty-empty pairs, filtered pairs), found %d' % (f.where, len(sinks)))
+    pls = []
+    for n in walk_own(f.node):
+        if isinstance(n, ast.Assign) and isinstance(n.targets[0], ast.Name) and isinstance(n.value, ast.Call):
+            vx = view.expand(n.value, n)
+            if isinstance(vx, ast.Call) and call_name(vx) == 'get_prefix_length':
+                pls.append(n.targets[0].id)
+    fcalls = [c for c in repo.calls_in(f) if call_name(c) == '_filter_suffix']
+    if len(pls) != 2 or len(fcalls) != 1:
+        raise AnalysisError('%s: prefix lengths / _filter_suffix call not recognisable' % f.where)
+    conds = Conds(f.node, None)
+    c_empty, c_main = conds.of(sinks[0]), conds.of(sinks[1])
+    from ..guards import f_and, f_not
+    ref = f_and(f_not(_inner(c_empty, c_main)), f_not(to_formula(parse_expr('%s <= 0 or %s <= 0' % tuple(pls)))),
+                f_not(('lit', fcalls[0], True)))
+    got = _inner(c_main, c_empty, strip_common=True)
+    w = Universe(int_atoms=lambda a: True).equivalent(got, ref)
+    ctx.check('R-SUFFIX/worker', f, 'emission condition', w is None,
+              'the worker emits a pair under `%s`; it must be exactly: not the admitted empty-empty case, both prefix lengths '
+              'positive, and _filter_suffix(..) false%s' % (show(got)[:160], (' (differs when ' + show_asg(w)[:100] + ')') if w else ''),
+              sinks[1], sample='emit iff not empty-case and prefixes > 0 and not _filter_suffix(..)')
+
+
+def _inner(c, other, strip_common=False):
+    """the part of condition c that is not shared with `other` (the literals of the enclosing loops / progress flags
+    are common to both sinks)"""
+    from ..guards import literals, f_and
+    mine = [(U(e), pol, e) for _, e, pol in literals(c)]
+    theirs = set((U(e), pol) for _, e, pol in literals(other))
+    if c[0] not in ('and', 'lit'):
+        return c
+    keep = [('lit', e, pol) for t, pol, e in mine if (t, pol) not in theirs]
+    return f_and(*keep) if keep else c
+
+
+def _check_lower_bounds(ctx, repo, g, gv, pcalls, windowed, hmax):
+    """Every value the estimator returns is a sum of valid lower bounds, and no recursive call gets a smaller budget
+    than its share:
+      H(l, r) >= H(l_l, r_l) + H(l_r, r_r) + diff,   H(x, y) >= | |x| - |y| |,   H(x, y) >= est(x, y)
+    so a returned value v is fine when (A_L or E_L) + (A_R or E_R) + diff - v is a sum of non-negative terms, and a
+    budget b handed to est(l_l, r_l, ..) / est(l_r, r_r, ..) is fine when b - (B - A_R - diff) resp.
+    b - (B - E_L - diff) is. Anything else may still be correct; it is reported as not recognisable (exit 2) unless
+    it is provably larger than such a bound."""
+    from ..symx import nonneg
+    parts = {}
+    diff = flag = None
+    probe_seq = None
+    for c in pcalls:
+        st = gv.stmt_of(c)
+        t = st.targets[0].elts
+        parts['l' if c is windowed else 'r'] = (t[0].id, t[1].id)
+        if c is windowed:
+            flag, diff = t[2].id, t[3].id
+        else:
+            probe_seq = (U(c.args[0]), c.args[1])
+    (ll, lr), (rl, rr) = parts['l'], parts['r']
+    # the probe token is an element of the sequence that is split exactly at its position
+    tok = probe_seq[1]
+    tx = gv.expand(tok, gv.stmt_of(pcalls[0]))
+    ok_tok = isinstance(tx, ast.Subscript) and U(tx.value) == probe_seq[0]
+    ctx.check('R-SUFFIX/recursion', g, 'probe token', ok_tok,
+              'the probe token `%s` is not an element of `%s`, the suffix that is split at the probe position' % (U(tx)[:50], probe_seq[0]),
+              pcalls[0], sample='%s[mid]' % probe_seq[0])
+    rec = [c for c in repo.calls_in(g) if call_name(c) == g.name]
+    names = {}
+    for c in rec:
+        b = repo.resolve_call(g, c)[2]
+        la = U(b[g.params[1]])
+        names[id(c)] = '__EL__' if la == ll else '__ER__' if la == lr else None
+
+    class Sub(ast.NodeTransformer):
+        def visit_Call(s_, n):
+            if id(n) in names and names[id(n)]:
+                return ast.Name(id=names[id(n)], ctx=ast.Load())
+            return s_.generic_visit(n)
+    keep = (ll, lr, rl, rr, diff)
+
+    def nf(norm, e, st):
+        import copy
+        x = gv.expand(e, st, keep=keep)
+        # calls are matched by identity in the *original* tree: substitute before expansion where possible
+        return norm.visit(untag_names(x))
+    # name the results of the recursive calls
+    res_names = {}
+    for c in rec:
+        st = gv.stmt_of(c)
+        if isinstance(st, ast.Assign) and isinstance(st.targets[0], ast.Name) and st.value is c and names[id(c)]:
+            res_names[st.targets[0].id] = names[id(c)]
+    keep = keep + tuple(res_names)
+    AL = 'abs(len(%s) - len(%s))' % (ll, rl)
+    AR = 'abs(len(%s) - len(%s))' % (lr, rr)
+    EL = [k for k, v in res_names.items() if v == '__EL__']
+    ER = [k for k, v in res_names.items() if v == '__ER__']
+    combos = [(AL, AR)] + [(e, AR) for e in EL] + [(AL, e) for e in ER] + [(a, b) for a in EL for b in ER]
+    conds = Conds(g.node, None)
+    n_ret = 0
+    for r in [x for x in walk_own(g.node) if isinstance(x, ast.Return) and x.value is not None]:
+        if not gv.dominates(gv.stmt_of(windowed), r):
+            continue                      # base cases, before the partitions
+        try:
+            norm = Norm()
+            v = nf(norm, r.value, r)
+            if (v - norm.visit(parse_expr(hmax))).as_const() is not None:
+                continue                  # `budget + c`: decided by R-SUFFIX/estimate
+            okv = False
+            for a, b_ in combos:
+                if nonneg(norm, norm.visit(parse_expr('%s + %s + %s' % (a, b_, diff))) - v, names=(diff,) + tuple(res_names)):
+                    okv = True
+            why = '`return %s` (= %s) is not bounded by a sum of valid lower bounds of the two parts plus the mismatch: the ' \
+                  'estimate can exceed the true Hamming distance and qualifying pairs are dropped' % (U(r.value)[:50], U(untag_names(gv.expand(r.value, r, keep=keep)))[:100])
+        except Unsupported as e:
+            raise AnalysisError('%s: returned estimate `%s` not recognisable (%s)' % (g.where, U(r.value)[:60], e))
+        n_ret += 1
+        ctx.check('R-SUFFIX/bound', g, 'return %s' % U(r.value)[:40], okv, why, r, sample='a sum of lower bounds')
+    ctx.floor('R-SUFFIX/bound', n_ret, 3, 'returned estimates after the partitions')
+    # budgets of the recursive calls
+    for c in rec:
+        b = repo.resolve_call(g, c)[2]
+        st = gv.stmt_of(c)
+        which = names[id(c)]
+        if which is None:
+            continue
+        try:
+            norm = Norm()
+            got = nf(norm, b[hmax], st)
+            if which == '__EL__':
+                want = norm.visit(parse_expr('%s - %s - %s' % (hmax, AR, diff)))
+                okb = nonneg(norm, got - want, names=(diff,))
+            else:
+                okb = any(nonneg(norm, got - norm.visit(parse_expr('%s - %s - %s' % (hmax, e, diff))), names=(diff,) + tuple(res_names))
+                          for e in (EL or [AL]))
+        except Unsupported as e:
+            raise AnalysisError('%s: recursive budget `%s` not recognisable (%s)' % (g.where, U(b[hmax])[:60], e))
+        ctx.check('R-SUFFIX/bound', g, 'budget of the %s call' % ('left' if which == '__EL__' else 'right'), okb,
+                  'the %s recursive call gets the budget `%s`, which can be smaller than what is left of the caller\'s budget: its '
+                  'window becomes too narrow and it rejects pairs that are within the budget'
+                  % ('left' if which == '__EL__' else 'right', U(b[hmax])[:80]), c, sample='budget minus the other side\'s bound minus mismatch')
+    # the one-token base case: 0/1 is a valid bound when the value 1 implies the two tokens differ
+    for r in [x for x in walk_own(g.node) if isinstance(x, ast.Return) and x.value is not None]:
+        if gv.dominates(gv.stmt_of(windowed), r):
+            continue
+        v = r.value
+        while isinstance(v, ast.Call) and isinstance(v.func, ast.Name) and v.func.id in ('int', 'bool') and len(v.args) == 1:
+            v = v.args[0]
+        if isinstance(v, (ast.Compare, ast.UnaryOp, ast.BoolOp)):
+            subs = [x for x in ast.walk(v) if isinstance(x, ast.Subscript)]
+            if len(subs) == 2:
+                ref = ast.Compare(left=subs[0], ops=[ast.NotEq()], comparators=[subs[1]])
+                w = Universe().implies(to_formula(v), to_formula(ref))
+                ctx.check('R-SUFFIX/bound', g, 'one-token base case', w is None,
+                          '`return %s`: the value 1 must mean that the two tokens differ' % U(r.value)[:60], r,
+                          sample='1 iff the tokens differ')
+                c = conds.of(r)
+                for sub in subs:
+                    cnt = g.params[3] if U(sub.value) == g.params[1] else g.params[4] if U(sub.value) == g.params[2] else None
+                    if cnt:
+                        w2 = Universe(int_atoms=lambda a: True).implies(c, to_formula(parse_expr('%s != 0' % cnt)))
+                        ctx.check('R-SUFFIX/probe', g, 'read %s' % U(sub)[:30], w2 is None,
+                                  '`%s` is read although that suffix may be empty (path condition `%s`)' % (U(sub), show(c)[:80]), r)
+
+
+def _check_mid_range(ctx, g, gv, mid_name, r_n, at_call):
+    """the probe position indexes the right suffix: floor(r_n * q) with 0 < q < 1 stays below r_n (r_n >= 1 there).
+    Other spellings are left undecided here (R-SUFFIX/probe covers the emptiness part)."""
+    st = gv.stmt_of(at_call)
+    x = untag_names(gv.expand(parse_expr(mid_name), st))
+    try:
+        norm = Norm()
+        v = norm.visit(x)
+        sa = v.single_atom()
+        if sa is None or sa[1] != 1 or sa[2] != 0:
+            return
+        info = norm.info(sa[0])
+        if not info or info[0] not in ('floor', 'floordiv'):
+            return
+        q = (info[1][0] / norm.visit(parse_expr(r_n))).as_const()
+    except Unsupported:
+        return
+    if q is None:
+        return
+    ctx.check('R-SUFFIX/probe', g, 'probe position', 0 < q < 1,
+              'the probe position `%s` = floor(%s * %s) is not below the size of the right suffix: the read of the probe token '
+              'is out of range' % (U(x)[:60], q, r_n), at_call, sample='floor(%s * %s)' % (q, r_n))
